@@ -35,10 +35,24 @@ struct FifoSpec {
 };
 
 // adapters -----------------------------------------------------------------------------------------
+template <class Q, class = void>
+struct has_pop : std::false_type {};
+template <class Q>
+struct has_pop<Q, std::void_t<decltype(std::declval<Q&>().pop())>> : std::true_type {};
+
 template <class Q>
 struct ValAdapter { // queues holding int by value
   static void push(Q& q, int v) { q.push(v); }
   static bool try_pop(Q& q, int& v) { return q.try_pop(v); }
+  static bool pop_opt(Q& q, int& v) { // the std::optional returning entry point (michael_scott_queue has none)
+    if constexpr (has_pop<Q>::value) {
+      auto r = q.pop();
+      if (!r) return false;
+      v = *r;
+      return true;
+    } else
+      return q.try_pop(v);
+  }
 };
 template <class Q>
 struct PtrAdapter { // queues holding raw pointers: the value is encoded in the (never dereferenced) pointer
@@ -47,6 +61,12 @@ struct PtrAdapter { // queues holding raw pointers: the value is encoded in the 
     int* p = nullptr;
     if (!q.try_pop(p)) return false;
     v = int(reinterpret_cast<uintptr_t>(p) >> 4);
+    return true;
+  }
+  static bool pop_opt(Q& q, int& v) {
+    auto r = q.pop();
+    if (!r) return false;
+    v = int(reinterpret_cast<uintptr_t>(*r) >> 4);
     return true;
   }
 };
@@ -62,6 +82,9 @@ void fifo_test() {
   for (int t = 0; t < T; t++)
     for (int i = 0; i < m; i++) (p.op[t][i] == 0 ? pushes : pops)++;
   if (pops == 0 && opt("allow_push_only", 0) == 0) prune();
+  // popping entry point: --opt api=0 try_pop(value_type&), 1 pop() -> std::optional, 2 (default) alternating with the
+  // position of the operation in its thread's program (the same for every thread: symmetry pruning stays sound)
+  const int api = (int)opt("api", 2);
   Q* q = new Q();
   int next = 1;
   for (int i = 0; i < prefill; i++) {
@@ -72,7 +95,7 @@ void fifo_test() {
   }
   for (int t = 0; t < T; t++) {
     int base = next + t * m;
-    spawn([q, p, t, m, base] {
+    spawn([q, p, t, m, base, api] {
       for (int i = 0; i < m; i++) {
         if (p.op[t][i] == 0) {
           op_begin(0, base + i);
@@ -81,17 +104,17 @@ void fifo_test() {
         } else {
           int v = 0;
           op_begin(1);
-          bool ok = A::try_pop(*q, v);
+          bool ok = (api == 1 || (api == 2 && (i & 1) == 0)) ? A::pop_opt(*q, v) : A::try_pop(*q, v);
           op_end(ok, ok ? v : 0);
         }
       }
     });
   }
   join_all();
-  for (;;) { // final drain
+  for (int i = 0;; i++) { // final drain
     int v = 0;
     op_begin(1);
-    bool ok = A::try_pop(*q, v);
+    bool ok = (api == 1 || (api == 2 && (i & 1))) ? A::pop_opt(*q, v) : A::try_pop(*q, v);
     op_end(ok, ok ? v : 0);
     if (!ok) break;
   }
